@@ -220,45 +220,27 @@ int _vnacal_new_check_all_frequency_ranges(const char *function,
 
 
 /*
- * _vnacal_new_get_parameter: add/find parameter
+ * get_parameter_node: find or create the node of a parameter structure
  *   @function: name of user-called function
  *   @vnp: pointer to vnacal_new_t structure
- *   @parameter: parameter index such as VNACAL_ZERO
+ *   @vpmrp: parameter (validated by the caller, or reached through
+ *           the "other" pointer of a validated parameter)
  */
-vnacal_new_parameter_t *_vnacal_new_get_parameter(const char *function,
-	vnacal_new_t *vnp, int parameter)
+static vnacal_new_parameter_t *get_parameter_node(const char *function,
+	vnacal_new_t *vnp, vnacal_parameter_t *vpmrp)
 {
     vnacal_t *vcp = vnp->vn_vcp;
     vnacal_new_parameter_hash_t *vnphp = &vnp->vn_parameter_hash;
     vnacal_new_parameter_t *vnprp;
-    vnacal_parameter_t *vpmrp;
     vnacal_parameter_type_t type;
     vnacal_new_parameter_t *ncprp_correlate = NULL;
 
     /*
-     * Reject negative indices before they're used as a hash key.
-     */
-    if (parameter < 0) {
-	_vnacal_error(vcp, VNAERR_USAGE, "%s: invalid parameter index %d",
-		function, parameter);
-	return NULL;
-    }
-
-    /*
      * Search for the parameter in the hash and return if found.
      */
-    if ((vnprp = hash_lookup(vnphp, parameter)) != NULL) {
+    if ((vnprp = hash_lookup(vnphp,
+		    VNACAL_GET_PARAMETER_INDEX(vpmrp))) != NULL) {
 	return vnprp;
-    }
-
-    /*
-     * Look-up the parameter in the vnacal_t structure.  If not found,
-     * parameter is deleted or invalid.
-     */
-    if ((vpmrp = _vnacal_get_parameter(vcp, parameter)) == NULL) {
-	_vnacal_error(vcp, VNAERR_USAGE, "%s: invalid parameter index %d",
-		function, parameter);
-	return NULL;
     }
     type = VNACAL_GET_PARAMETER_TYPE(vpmrp);
 
@@ -275,14 +257,15 @@ vnacal_new_parameter_t *_vnacal_new_get_parameter(const char *function,
     }
 
     /*
-     * If we're given a correlated parameter, recurse to get the correlate.
+     * If we're given a correlated parameter, recurse to get the
+     * correlate.  The correlate is held by the correlated parameter:
+     * it remains usable here even after the user has deleted its handle.
      */
     if (type == VNACAL_CORRELATED) {
 	vnacal_parameter_t *vpmrp_correlate = VNACAL_GET_PARAMETER_OTHER(vpmrp);
 
-	if ((ncprp_correlate = _vnacal_new_get_parameter(function, vnp,
-			VNACAL_GET_PARAMETER_INDEX(vpmrp_correlate))) == NULL) {
-	    free((void *)vnprp);
+	if ((ncprp_correlate = get_parameter_node(function, vnp,
+			vpmrp_correlate)) == NULL) {
 	    return NULL;
 	}
     }
@@ -316,4 +299,30 @@ vnacal_new_parameter_t *_vnacal_new_get_parameter(const char *function,
     }
 
     return vnprp;
+}
+
+/*
+ * _vnacal_new_get_parameter: add/find parameter and return held
+ *   @function: name of user-called function
+ *   @vnp: pointer to vnacal_new_t structure
+ *   @parameter: index of parameter
+ */
+vnacal_new_parameter_t *_vnacal_new_get_parameter(const char *function,
+	vnacal_new_t *vnp, int parameter)
+{
+    vnacal_t *vcp = vnp->vn_vcp;
+    vnacal_parameter_t *vpmrp;
+
+    /*
+     * Look-up the parameter in the vnacal_t structure.  If not found,
+     * the handle is negative, out of range, unused or deleted - also
+     * when this vnacal_new_t still uses the deleted parameter.
+     */
+    if (parameter < 0 ||
+	    (vpmrp = _vnacal_get_parameter(vcp, parameter)) == NULL) {
+	_vnacal_error(vcp, VNAERR_USAGE, "%s: invalid parameter index %d",
+		function, parameter);
+	return NULL;
+    }
+    return get_parameter_node(function, vnp, vpmrp);
 }
